@@ -25,6 +25,14 @@ PARTIAL = ("no clause is partial. K1: ReadPMT never returns a PMT with an empty 
            "Descriptor bodies are observed by reflection; String()/Format() are not compared.")
 
 
+EXPECT = {}      # case line -> observation required by the Spec-side oracle (spec.parse / spec.read of modelexec)
+_SPEC_REQ = []   # (case line, spec request line), resolved in one batch at the end of gen
+
+
+def want_spec(line, op, c):
+    _SPEC_REQ.append((line, "%s %s" % (op, fmt_val(L.fmt_section(c["sec"])))))
+
+
 def read_cases(rng, c, payload, pid, out, kind, cutsets, interleave=True):
     lines, meta = [], []
     for cuts in cutsets:
@@ -35,6 +43,8 @@ def read_cases(rng, c, payload, pid, out, kind, cutsets, interleave=True):
     nonempty = len(c["sec"]["streams"]) > 0
     for s, cuts in zip(streams, meta):
         ok = nonempty and not (set(cuts) & set(c["inner_ends"]))
+        if ok:
+            want_spec("pmt.read %s %d" % (s, pid), "spec.read", c)
         out.append(Case("pmt.read %s %d" % (s, pid), kind=kind if nonempty else "read-empty-streams-K1",
                         decides=ok, nontrivial=ok, theorem="C06_L4_read_pmt",
                         note="cuts=%s unit_len=%d inner_ends=%s" % (cuts, c["unit_len"], c["inner_ends"])))
@@ -43,6 +53,7 @@ def read_cases(rng, c, payload, pid, out, kind, cutsets, interleave=True):
 def gen(rng, tier):
     out = []
     quick = tier == "quick"
+    EXPECT.clear(); del _SPEC_REQ[:]
     # ---- F4 regression inputs (DESIGN section 7) and tiny fixed cases
     for b in (b"", b"\x00", b"\x00\x02", b"\x00\x02\xb0", b"\x01", b"\x01\xff", b"\x02\xff", b"\x00\xff", b"\x00\x02\xb0\x00"):
         out.append(Case("pmt.done %s" % hx(b), kind="done-fixed", theorem="C06_L3_done_prefix"))
@@ -56,6 +67,7 @@ def gen(rng, tier):
     payloads = L.ser_payloads(carriers)
     for c, p in zip(carriers, payloads):
         wf = "wf"
+        want_spec("pmt.parse %s" % hx(p), "spec.parse", c)
         out.append(Case("pmt.parse %s" % hx(p), kind="parse-" + wf, theorem="C06_L2_parse_tables"))
         out.append(Case("pmt.doneall %s" % hx(p), kind="doneall", theorem="C06_L3_done_prefix"))
         crc_ok = c["pf"] == 0 and not c["pre"]
@@ -72,6 +84,7 @@ def gen(rng, tier):
         c["stuffing"] = rng.choice([0, 0, 1, 3])
     spay = L.ser_payloads(smalls)
     for c, p in zip(smalls, spay):
+        want_spec("pmt.parse %s" % hx(p), "spec.parse", c)
         out.append(Case("pmt.parse %s" % hx(p), kind="parse-wf", theorem="C06_L2_parse_tables"))
         out.append(Case("pmt.doneall %s" % hx(p), kind="doneall", theorem="C06_L3_done_prefix"))
         n = len(p)
@@ -186,6 +199,9 @@ def gen(rng, tier):
         out.append(Case("pmt.read %s %d" % (hx(b"".join(k1[:cutat] + k2)), pid), kind="fid-restart", decides=False, nontrivial=False))
         out.append(Case("pmt.read %s %d" % (hx(b"".join(k1 + k2)), pid), kind="fid-two-units", decides=False, nontrivial=False))
         out.append(Case("pmt.read %s %d" % (hx(b"".join(k1[1:] + k2)), pid), kind="fid-join-midway", decides=False, nontrivial=False))
+    if _SPEC_REQ:
+        for (line, _), exp in zip(_SPEC_REQ, vlib.run_model([r for _, r in _SPEC_REQ])):
+            EXPECT[line] = exp
     return out
 
 
@@ -198,7 +214,10 @@ K1_MSG = "ReadPMT answers ErrPMTNotFound for a well-formed PMT with an empty str
 def oracle(c, real, model):
     if K1_LISTED and c.kind == "read-empty-streams-K1" and real == "[1 20]":
         return K1_MSG
-    return None
+    exp = EXPECT.get(c.line)
+    if exp is not None and real != exp:
+        return "observed differs from what the Spec-side oracle (sec_result of the logical section) requires: " + exp[:300]
+    return None      # then the projected comparison with the model decides
 
 
 def known_match(entry, c, real, model):
